@@ -87,6 +87,13 @@ type scanner struct {
 	lengthComputing bool
 
 	hasTrailingCharacters bool
+
+	// arrayFound a sign that the opening square bracket has been found.
+	arrayFound bool
+
+	// afterSlash a sign that the last byte was a slash that has to be followed
+	// by another slash or an asterisk.
+	afterSlash bool
 }
 
 func newScanner(file *fs.File, oo ...scannerOption) *scanner {
@@ -190,6 +197,20 @@ func (s *scanner) Next() (lexeme.LexEvent, error) {
 }
 
 func (s *scanner) processTail() (lexeme.LexEvent, error) {
+	if !s.arrayFound && !s.lengthComputing {
+		err := kit.NewJSchemaError(s.file, errs.ErrEnumArrayExpected.F())
+		if s.dataSize > 0 {
+			err.SetIndex(s.dataSize - 1)
+		}
+		return lexeme.LexEvent{}, err
+	}
+
+	if s.afterSlash {
+		err := kit.NewJSchemaError(s.file, errs.ErrUnexpectedEOF.F())
+		err.SetIndex(s.dataSize - 1)
+		return lexeme.LexEvent{}, err
+	}
+
 	if s.stack.Len() == 0 {
 		return lexeme.LexEvent{}, errEOS
 	}
@@ -228,6 +249,7 @@ func (s *scanner) stateBegin(c byte) (state, error) {
 		return scanSkip, err
 	}
 
+	s.arrayFound = true
 	s.found(lexeme.ArrayBegin)
 	s.step = s.stateFoundArrayItemBeginOrEmpty
 	return scanSkip, nil
@@ -670,6 +692,7 @@ func (s *scanner) stateNul(c byte) (state, error) {
 }
 
 func (s *scanner) stateAnyAnnotationStart(c byte) (st state, err error) {
+	s.afterSlash = false
 	switch c {
 	case '/':
 		s.annotation = true
@@ -830,5 +853,6 @@ func (s *scanner) switchToAnnotation() error {
 	}
 	s.returnToStep.Push(s.step)
 	s.step = s.stateAnyAnnotationStart
+	s.afterSlash = true
 	return nil
 }
